@@ -428,6 +428,14 @@ Fixpoint spec_entropy_use (next : nat) (ops : list gen_op) : list (option nat) :
               else Some next :: spec_entropy_use (S next) r
   end.
 
+(* ---------------------------------------------------------------- EC-multiplied mode: names used by the theorems *)
+Definition ec_magic (has_lot : bool) : bytes := if has_lot then magic_lot else magic_nolot.
+(* the pass factor, as the decryption derives it from the passphrase and the owner entropy *)
+Definition pass_factor_of (P : Type) (utf8 : P -> bytes) (scrypt : bytes -> bytes -> Z -> Z -> Z -> nat -> bytes)
+    (H : bytes -> bytes) (has_lot : bool) (pw : P) (oe : bytes) : bytes :=
+  if has_lot then H (scrypt (utf8 pw) (sl 0 4 oe) 16384 8 8 32%nat ++ oe)
+  else scrypt (utf8 pw) oe 16384 8 8 32%nat.
+
 (* ---------------------------------------------------------------- the premises about the oracles, named *)
 Definition aes_inverse (aes_enc aes_dec : bytes -> bytes -> bytes) : Prop :=
   forall k b, length b = 16%nat -> aes_dec k (aes_enc k b) = b.
@@ -442,3 +450,21 @@ Definition b58_roundtrip43 (b58e : bytes -> bytes) (b58d : bytes -> option bytes
   forall x, length x = 43%nat -> b58d (b58e x) = Some x.
 Definition b58_protected_shape (b58e : bytes -> bytes) : Prop :=
   forall x, length x = 43%nat -> sl 0 2 x = pfx_noec -> lib_is_protected (b58e x) = true.
+Definition b58_roundtrip53 (b58e : bytes -> bytes) (b58d : bytes -> option bytes) : Prop :=
+  forall x, length x = 53%nat -> b58d (b58e x) = Some x.
+Definition b58_protected_shape_ec (b58e : bytes -> bytes) : Prop :=
+  forall x, length x = 43%nat -> sl 0 2 x = pfx_ec -> lib_is_protected (b58e x) = true.
+(* the curve, on serialised points: b * (a * G) = (a * b mod n) * G; compressed points are 33 bytes *)
+Definition curve_mul_law (pubser : bool -> Z -> option bytes) (ptmulser : bool -> bytes -> Z -> option bytes) : Prop :=
+  forall c a b pp, 0 < a < secp_order -> 0 < b < secp_order ->
+  pubser true a = Some pp -> ptmulser c pp b = pubser c ((a * b) mod secp_order).
+Definition pub_length33 (pubser : bool -> Z -> option bytes) : Prop :=
+  forall k pp, pubser true k = Some pp -> length pp = 33%nat.
+
+(* ---------------------------------------------------------------- toy oracles for the computed witnesses *)
+Definition toy_scrypt (pw salt : bytes) (n r p : Z) (dk : nat) : bytes := firstn dk (pw ++ salt ++ repeat x00 dk).
+Definition toy_aes (k b : bytes) : bytes := b.
+Definition toy_H (x : bytes) : bytes := repeat (zb (fold_right (fun b a => 3 * a + bz b) 0 x)) 32.
+Definition toy_b58e (x : bytes) : bytes := x36 :: x50 :: x ++ repeat x31 13.
+Definition toy_b58d (s : bytes) : option bytes := Some (firstn 43 (skipn 2 s)).
+Definition toy_pub (c : bool) (k : Z) : option bytes := if k =? 0 then None else Some ((if c then x02 else x04) :: be_bytes 32 k).
